@@ -15,7 +15,8 @@
         W pending0  "Not started yet" ; install the SIGINT handler ; start the command
         loop: every 250 ms  W (Running, stat(stdout))
               command exited  ->  W (Succeeded|Failed, stat(stdout)) ; exit
-              SIGINT          ->  signal the command, wait for it ; W (Failed "Killed", stat(stdout)) ; exit
+              SIGINT          ->  termThenKill: SIGINT to the command; if it has not exited after 10 s
+                                  (it may ignore the signal) SIGKILL ; W (Failed "Killed", stat(stdout)) ; exit
         (before the handler is installed a SIGINT kills the runner silently; after the loop it
          is ignored; when both a tick/exit and the signal are ready Go's select picks any)
      waiter goroutine of the daemon (command.go:276-282): after cmd.Wait()  W same (ExtraData := nil)
@@ -87,7 +88,8 @@ Inductive rphase :=
 | RStart                (* spawned, nothing written yet, no signal handler *)
 | RInit                 (* "Not started yet" written, handler not yet installed *)
 | RLoop                 (* monitoring the command *)
-| RKill                 (* SIGINT seen: terminating the command *)
+| RKill                 (* SIGINT seen: SIGINT sent to the command, waiting for it *)
+| REscalate             (* the grace period is over and the command still runs: SIGKILL *)
 | RFin (ok : bool)      (* command over (or could not be started): about to write the final state *)
 | RWrote                (* final state written, process still alive *)
 | RGone (reaped : bool). (* exited; a zombie until reaped *)
@@ -207,6 +209,13 @@ Definition step (pinned : bool) (a : action) (w : world) : world :=
       else if choice =? 1 then match w_child w with CDone ok => set_run (RFin ok) w | _ => w end
       else if w_sig w then set_run RKill w else w
     | RKill =>
+      (* choice 0: the command obeyed the SIGINT (or was over already); otherwise it ignored it *)
+      if choice =? 0 then
+        set_run (RGone false)
+          (W Runner KKilled (wf_killed (w_out w))
+             (set_child (match w_child w with CRun => CDone false | c => c end) w))
+      else set_run REscalate w
+    | REscalate =>
       set_run (RGone false)
         (W Runner KKilled (wf_killed (w_out w))
            (set_child (match w_child w with CRun => CDone false | c => c end) w))
